@@ -572,6 +572,11 @@ func RunStreamCapture(em *Emitter, tr int, st *Stream, capt *Capture) {
 		ladders = append(ladders, &ladder{limit: l, rec: r, gapped: map[string]bool{},
 			c: arrow_record.NewConsumer(arrow_record.WithMemoryLimit(l), arrow_record.WithMeterProvider(recProvider{r: r}))})
 	}
+	type emittedPayload struct {
+		b   []byte
+		sum [32]byte
+	}
+	var emitted []emittedPayload
 	type lagItem struct {
 		k      int
 		sig    string
@@ -640,6 +645,9 @@ func RunStreamCapture(em *Emitter, tr int, st *Stream, capt *Capture) {
 		}
 		retiredPrev := retired
 		if oc == "ok" && bar != nil {
+			for _, pl := range bar.ArrowPayloads {
+				emitted = append(emitted, emittedPayload{b: pl.Record, sum: sha256.Sum256(pl.Record)})
+			}
 			ev["bid"] = int(bar.BatchId)
 			pls := []any{}
 			for _, pl := range bar.ArrowPayloads {
@@ -885,7 +893,14 @@ func RunStreamCapture(em *Emitter, tr int, st *Stream, capt *Capture) {
 		}
 	}()
 	bal := pool.CurrentAlloc()
-	em.Emit(tr, "Close", map[string]any{"a": bal, "err": cerr})
+	// an emitted payload is a value of its own: its bytes must still be what they were when the batch was returned
+	changed := 0
+	for _, ep := range emitted {
+		if sha256.Sum256(ep.b) != ep.sum {
+			changed++
+		}
+	}
+	em.Emit(tr, "Close", map[string]any{"a": bal, "err": cerr, "n": changed})
 	func() {
 		defer func() { _ = recover() }()
 		_ = c.Close()
